@@ -132,6 +132,15 @@ def work(arg):
     if again is not None and (not again.ok or not all(numpy.shape(a) == numpy.shape(b) and numpy.allclose(a, b, rtol=1e-12, atol=0, equal_nan=True)
                                                       for a, b in zip(o.value, again.value))):
         v('second-call-differs', 'calling the function a second time with the same arrays gives another result')
+    if profile == 'linear':
+        # parameter dictionaries are keyed by name: the order in which a user wrote the keys (reversed here; sorted order is the reverse of neither) is immaterial
+        for who, a2, m2 in (('adsorbate', dict(reversed(list(ads.items()))), mat), ('adsorbent', ads, dict(reversed(list(mat.items())))),
+                            ('both, sorted keys', dict(sorted(ads.items())), dict(sorted(mat.items())))):
+            o4 = core.call(fn, pressure.copy(), loading.copy(), T, geometry, a2, m2, use_cy, timeout=600)
+            out['ev'] += 1
+            if not o4.ok or not all(numpy.shape(a) == numpy.shape(b) and numpy.allclose(a, b, rtol=1e-12, atol=0, equal_nan=True) for a, b in zip(o.value, o4.value)):
+                v('dictionary-key-order', f'the same {who} parameters written in another key order give another result'
+                  + (f' (first widths {numpy.asarray(o4.value[0])[:3]} instead of {numpy.asarray(o.value[0])[:3]})' if o4.ok else f': {o4.brief()}'), None, None, {'which': who.split(',')[0]})
     widths_rep, dist, cum = [numpy.asarray(x, dtype=float) for x in o.value]
     call = rec.calls[0]
     raw = call['widths']
